@@ -90,6 +90,10 @@ type oracleRun struct {
 	seenDets         map[string][]uint64
 	repeatReports    int
 	firstTaintHeight int64
+	// parameter updates (histories on a test-network chain id, where MsgUpdateParams needs no governance)
+	paramUser  *sim.Account
+	superseded map[uint64]bool // feeders that ended and were resumed by a newer feeder of the same token
+	res        *Result
 }
 
 func (o *oracleRun) site(fid uint64, s string) string {
@@ -120,6 +124,11 @@ func oracleConfig(r *rand.Rand) (sim.Config, map[uint64]*oFeeder, int) {
 		}
 	}
 	cfg := sim.DefaultConfig(len(stakes), stakes)
+	if r.Intn(3) > 0 {
+		// two thirds of the histories run under a test-network chain id: there the oracle's MsgUpdateParams is open to
+		// any signer, which is the only way parameters can change at all (governance cannot pass, see C11's findings)
+		cfg.ChainID = "exocoretestnet_233-1"
+	}
 	maxNonce := []int{1, 2, 3, 3, 4, 5}[r.Intn(6)]
 	cfg.OracleMaxNonce = int32(maxNonce)
 	cfg.Assets = cfg.Assets[:2]
@@ -196,6 +205,10 @@ func runOracle(j Job) *Result {
 			if len(op.Keys) > 0 {
 				o.vals = append(o.vals, op.Keys[0])
 			}
+		}
+		o.res = res
+		if cfg.ChainID != sim.DefaultConfig(1, nil).ChainID {
+			o.paramUser = cfg.Accounts[2]
 		}
 		o.noTaintClasses = i%3 == 0 || j.Variant == "notaint" // a third of the histories stay free of the two recorded memory-mutation triggers
 		m9 := mon.NewC09(hist)
@@ -358,6 +371,12 @@ func (o *oracleRun) run(nBlocks int) {
 			fids = append(fids, id)
 		}
 		sort.Slice(fids, func(a, b int) bool { return fids[a] < fids[b] })
+		updateLate := false
+		if o.paramUser != nil && b > 2 && o.r.Intn(7) == 0 {
+			if updateLate = o.r.Intn(2) == 0; !updateLate {
+				o.paramUpdate(h, fids)
+			}
+		}
 		for _, fid := range fids {
 			f := o.feeders[fid]
 			based, isOpen := open[fid]
@@ -484,6 +503,9 @@ func (o *oracleRun) run(nBlocks int) {
 			ghost := &oFeeder{id: uint64(7 + o.r.Intn(3)), dec: 0}
 			o.deliver(priceCase{class: "unknown-feeder", key: k, sigValid: true, msgs: []*oracletypes.MsgCreatePrice{o.mkMsg(k, ghost, h, 1, "5", "1", 0, 0)}})
 		}
+		if updateLate && !w.Dead {
+			o.paramUpdate(h, fids)
+		}
 		// stake changes that move the validator set at the next epoch end
 		if o.r.Intn(9) == 0 {
 			s := w.Stakers[len(w.Stakers)-1-o.r.Intn(3)]
@@ -524,6 +546,93 @@ func (o *oracleRun) run(nBlocks int) {
 			return
 		}
 		o.afterBegin()
+	}
+}
+
+// paramUpdate sends one MsgUpdateParams that touches a feeder's schedule: an end block for a running feeder (outside
+// every window, inside a window, exactly on a round boundary, in the past) or a new feeder that resumes a token
+// whose feeder has ended (with the round id the chain's own rule demands, or another). What the chain accepts is
+// what the reference model follows; the round-id and close rules of C12 then judge the consequences.
+func (o *oracleRun) paramUpdate(h uint64, fids []uint64) {
+	w, r := o.w, o.r
+	var running, ended []*oFeeder
+	for _, fid := range fids {
+		f := o.feeders[fid]
+		switch {
+		case o.superseded[fid]:
+		case f.end > 0 && h >= f.end:
+			ended = append(ended, f)
+		case f.start <= h:
+			running = append(running, f)
+		}
+	}
+	send := func(kind string, p map[string]string, tf *oracletypes.TokenFeeder) *ops.Step {
+		st := w.CosmosStep(kind, o.paramUser, sim.CosmosTxOpts{}, p, &oracletypes.MsgUpdateParams{Authority: o.paramUser.Acc.String(), Params: oracletypes.Params{TokenFeeders: []*oracletypes.TokenFeeder{tf}}})
+		if o.res != nil {
+			o.res.Counters[fmt.Sprintf("%s|%s|ack=%v", kind, p["variant"], st.Ack)]++
+		}
+		return st
+	}
+	if len(ended) > 0 && (len(running) == 0 || r.Intn(2) == 0) {
+		f := ended[r.Intn(len(ended))]
+		latest := f.startRound + (f.end-f.start)/f.interval // the chain's own formula for the last round id
+		tf := &oracletypes.TokenFeeder{TokenID: f.token, RuleID: 1, StartRoundID: latest + 1, StartBaseBlock: h + 1 + uint64(r.Intn(5)), Interval: uint64(2*o.maxNonce + r.Intn(6))}
+		variant := "next-round-id"
+		switch r.Intn(8) {
+		case 0:
+			variant, tf.StartRoundID = "round-id-repeated", latest
+		case 1:
+			variant, tf.StartRoundID = "round-id-skipped", latest+2
+		case 2:
+			variant, tf.StartBaseBlock = "start-not-in-future", h
+		case 3:
+			variant, tf.Interval = "interval-too-short", uint64(2*o.maxNonce-1)
+		}
+		st := send("param_resume_feeder", map[string]string{"variant": variant, "token": fmt.Sprint(f.token), "start": fmt.Sprint(tf.StartBaseBlock), "interval": fmt.Sprint(tf.Interval), "round": fmt.Sprint(tf.StartRoundID)}, tf)
+		if st.Ack {
+			fs := w.C.App.OracleKeeper.GetParams(w.C.Ctx()).TokenFeeders
+			id := uint64(len(fs) - 1)
+			o.feeders[id] = &oFeeder{id: id, token: f.token, start: tf.StartBaseBlock, interval: tf.Interval, startRound: tf.StartRoundID, dec: f.dec}
+			if o.superseded == nil {
+				o.superseded = map[uint64]bool{}
+			}
+			o.superseded[f.id] = true
+			if t := o.tainted[f.id]; t != "" {
+				o.tainted[id] = t // the token's round ids were already off (recorded memory-mutation findings)
+			}
+		}
+		return
+	}
+	if len(running) == 0 {
+		return
+	}
+	f := running[r.Intn(len(running))]
+	iv, mn := f.interval, uint64(o.maxNonce)
+	nb := f.start + ((h-f.start)/iv+1)*iv // the next round boundary after this block
+	k := uint64(r.Intn(3))
+	var end uint64
+	variant := ""
+	switch r.Intn(10) {
+	case 0, 1:
+		variant, end = "on-a-round-boundary", nb+k*iv
+	case 2, 3:
+		variant, end = "inside-a-window", nb+k*iv+uint64(r.Intn(int(mn)))
+	case 4:
+		variant, end = "not-in-the-future", h-uint64(r.Intn(2))
+	default:
+		variant, end = "outside-every-window", nb+k*iv+mn+uint64(r.Intn(int(iv-mn)))
+		if r.Intn(3) == 0 {
+			// in the running interval, after its window
+			if last := nb - iv; last+mn > h {
+				end = last + mn + uint64(r.Intn(int(iv-mn)))
+			} else if h+1 < nb {
+				end = h + 1 + uint64(r.Intn(int(nb-h-1)))
+			}
+		}
+	}
+	st := send("param_feeder_end", map[string]string{"variant": variant, "feeder": fmt.Sprint(f.id), "end": fmt.Sprint(end)}, &oracletypes.TokenFeeder{TokenID: f.token, EndBlock: end})
+	if st.Ack {
+		f.end = end
 	}
 }
 
@@ -1074,6 +1183,9 @@ func (o *oracleRun) afterEnd(pre *sim.Snap, st *ops.Step) {
 			_ = 0
 		}
 		// stored next round id: exactly one close per round, no gap, no repeat
+		if o.superseded[fid] {
+			continue // the token's round ids are judged through the feeder that resumed it
+		}
 		s.Eval("next-round-id")
 		want := f.startRound + o.closed[fid]
 		gotNext := uint64(1)
